@@ -333,6 +333,25 @@ func (c *FnCtx) enterLoop(bc *blockCtx, li *loopInfo, rr *regionRun) {
 			bc.st.ghost[k] = mkInt(f, nil)
 		}
 	}
+	// defers inside the loop: earlier iterations may have registered them
+	for _, b := range li.header.Parent().Blocks {
+		if !li.blocks[b] {
+			continue
+		}
+		for _, in := range b.Instrs {
+			if df, ok := in.(*ssa.Defer); ok {
+				dup := false
+				for _, e := range bc.st.defers {
+					if e.wide && e.instr == df {
+						dup = true
+					}
+				}
+				if !dup {
+					bc.st.defers = append(bc.st.defers, deferEntry{instr: df, frame: bc.fr, active: "true", wide: true})
+				}
+			}
+		}
+	}
 	// 5. assume invariants
 	if c.dry == 0 {
 		c.runGhostAtState(bc.fr, bc.st, Anchor{Kind: "head", Loop: li.ord})
